@@ -8,7 +8,7 @@
    reported by the parser becomes a library error (theorem about /repo's glue); WHICH texts the parser
    rejects is sampled on documents invalid by construction. *)
 From Coq Require Import List Bool String ZArith.
-From FM Require Import Base.Result Base.Str Model.Ast Model.FM Model.PFM Format.Uvl Proofs.UvlFacts.
+From FM Require Import Base.Result Base.Str Model.Ast Model.FM Model.PFM Format.Uvl Proofs.UvlFacts Proofs.UvlVariant.
 Import ListNotations.
 Local Open Scope list_scope.
 
@@ -52,3 +52,22 @@ Example C04_nonvacuous :
   uvl_read (fun _ => None) "features"%string = Err FlamaException /\ uvl_ok ex_model = true.
 Proof. split; [reflexivity|exact ex_model_ok]. Qed.
 Print Assumptions C04_nonvacuous.
+
+(* ---- closure: a document denotes its model whatever surface syntax it uses.
+   [dvar] is the equivalence closure, at any depth of the feature tree and any position inside a constraint,
+   of: redundant parentheses; quoting of references, aggregate arguments and attribute keys; an explicit
+   Boolean type; [n] vs [n..n] (any two cardinality texts that parse alike, feature and group); several
+   children under one mandatory / optional keyword vs one keyword per child; alternative / or written as the
+   cardinality group it abbreviates; an absent vs empty constraints section or attribute block.
+   (UvlVariant.v also records what is NOT a variant: splitting an or-group, swapping groups, the quotes of a
+   string literal.) *)
+Theorem C04_surface_variants_read_alike : forall d d', dvar d d' -> uvl_read_cst d = uvl_read_cst d'.
+Proof. exact uvl_read_variant. Qed.
+Print Assumptions C04_surface_variants_read_alike.
+Theorem C04_variant_denotes : forall m d d', uvl_ok m = true -> cst_of_fm m = Ok d -> dvar d d' ->
+  uvl_read_cst d' = Ok (annotate_fm (uvl_norm m)).
+Proof. exact uvl_variant_denotes. Qed.
+Print Assumptions C04_variant_denotes.
+Example C04_variant_nonvacuous : dvar d0 d1 /\ uvl_read_cst d1 = Ok (annotate_fm (uvl_norm v_model)).
+Proof. exact (conj d0_d1 d1_denotes). Qed.
+Print Assumptions C04_variant_nonvacuous.
